@@ -50,7 +50,7 @@ ASSUMPTIONS = [
     "CPU numpy backend; alpha is a Python float or numpy float64 scalar (array step sizes, which Stack also accepts, are outside the property's 'all alpha > 0')",
     "parameters: lamda, epsilon > 0 floats (the class docstrings say float); bias/z/y0 scalar or full-shape array of the input's field (real with real input: L2Reg and linf_proj add them in place); lower <= upper",
     "BoxConstraint only with real inputs (l <= x <= u is not defined for complex x), hence no FFT above a BoxConstraint",
-    "PsdProj inputs are Hermitian up to rounding (psd_proj documents 'a two-dimensional matrix'; for non-Hermitian input 'X >= 0' is ambiguous, so it is not generated); square 2-D shapes",
+    "PsdProj: square 2-D shapes; the feasible set is the Hermitian PSD cone, so for a non-Hermitian input (generated as classes nonherm-*) the unique nearest point is the PSD part of its Hermitian part, which is what the pinned psd_proj computes (eigh of (X + X^H)/2)",
     "L2Proj(axes=...) is read as: every slice along `axes` of (x - y) lies in the l2 ball (what l2_proj computes with keepdims norms); the indicator sets are taken closed (<=) although the docstrings print '<'",
     "U in UnitaryTransform comes from linops whose unitarity is the subject of C01/C05/C09 (FFT, Circshift, Flip, Transpose, MatMul with a unitary matrix); they are trusted here and mirrored by numpy code in the reference",
     "hard_thresh at an exact tie |x_i| = lamda_i may return 0 or x_i (the docstring gives no convention)",
@@ -131,7 +131,7 @@ def _inp(draw, t, shape, ddt):
         "L2Proj": ["raw", "zeros", "interior", "interior", "boundary", "boundary-exact", "outside", "mixed"],
         "LInfProj": ["raw", "zeros", "interior", "threshold", "threshold", "outside", "ties"],
         "PsdProj": ["rank1", "rank1", "blockdiag", "blockdiag", "rotrepeat", "rotrepeat", "psd", "nsd", "indef", "indef", "zeros",
-                    "scaledI"],
+                    "scaledI", "nonherm-psdpart", "nonherm-psdpart", "nonherm-indef", "nonherm-raw"],
         "BoxConstraint": ["raw", "raw", "interior", "bounds", "outside"],
         "NoOp": ["raw", "zeros"],
     }[t]
@@ -679,6 +679,20 @@ def _psd_input(cls, b, aux, cplx):
         return -(b @ np.conj(b).T)
     if cls == "indef":
         return _herm(b)
+    if cls.startswith("nonherm"):
+        # non-Hermitian input: the nearest Hermitian PSD matrix is the PSD part of the Hermitian part
+        K = (b - np.conj(b).T) / 2
+        if not np.any(K):
+            if n >= 2:
+                K = K.copy()
+                K[0, 1], K[1, 0] = 1.0, -1.0
+            elif cplx:
+                K = K + 1j * (1 + aux % 3)
+        if cls == "nonherm-psdpart":
+            return b @ np.conj(b).T + K          # Hermitian part already feasible, only the skew part must go
+        if cls == "nonherm-indef":
+            return _herm(b) + K
+        return b + K
     if cls == "rank1":
         v = np.round(8 * b[0])
         if n >= 2 and np.count_nonzero(v) < 2:
